@@ -1,6 +1,5 @@
 """C19 -- failures are reported only as ValueError/TypeError; nothing crashes."""
-import inspect
-from common import Family, call, all_of, any_of, sym_eq
+from common import Family, call, outcome, all_of, any_of, sym_eq
 import urlkit as U
 
 PROPERTY = "C19"
@@ -30,31 +29,12 @@ MANIFEST_ENTRY = {
 IDNA_LAST = ("host", "authority", "human_repr")
 
 
-def discover(P):
-    """public properties and nullary public methods of the live URL class"""
-    props, methods = [], []
-    for name in sorted(dir(P.URL)):
-        if name.startswith("_"):
-            continue
-        attr = inspect.getattr_static(P.URL, name)
-        if isinstance(attr, (classmethod, staticmethod)):
-            continue
-        if callable(attr) and not hasattr(attr, "__get__"):
-            continue
-        if inspect.isfunction(attr):
-            sig = inspect.signature(attr)
-            required = [p for p in list(sig.parameters.values())[1:] if p.default is p.empty and p.kind in (p.POSITIONAL_ONLY, p.POSITIONAL_OR_KEYWORD)]
-            if not required and not any(p.kind is p.VAR_POSITIONAL for p in sig.parameters.values()):
-                methods.append(name)
-        else:
-            props.append(name)
-    order = [n for n in props + methods if n not in IDNA_LAST] + [n for n in IDNA_LAST if n in props + methods]
-    return order, set(methods)
+discover = U.discover
 
 
 def ok_type(r):
     """an exception is acceptable iff it is a ValueError or TypeError (UnicodeError is a ValueError)"""
-    return r[0] == "ok" or isinstance(r[2], (ValueError, TypeError))
+    return r[0] in ("ok", "excluded") or isinstance(r[2], (ValueError, TypeError))
 
 
 NSLOTS = 12
@@ -76,7 +56,7 @@ def exercise(ctx, u, label, slot):
             r = call(lambda: getattr(u, name)())
         else:
             r = call(lambda: getattr(u, name))
-        ctx.observe(label + "." + name, r[1] if r[0] == "exc" else "ok")
+        ctx.observe(label + "." + name, outcome(r))
         ctx.check("only-ValueError-TypeError:" + name, ok_type(r), r[1])
 
 
@@ -84,12 +64,12 @@ def h_ctor(ctx, n, encoded=False, skeleton=None, slot=None):
     s = ctx.str("s", n) if skeleton is None else U.text(ctx, skeleton)
     P = ctx.P
     r = call(P.URL, s, encoded=encoded)
-    ctx.observe("URL", r[1] if r[0] == "exc" else "ok")
+    ctx.observe("URL", outcome(r))
     ctx.check("only-ValueError-TypeError:URL", ok_type(r), r[1])
     if r[0] == "ok":
         if slot is None:
             st = call(str, r[1])
-            ctx.observe("str", st[1] if st[0] == "exc" else "ok")
+            ctx.observe("str", outcome(st))
             ctx.check("only-ValueError-TypeError:str", ok_type(st), st[1])
         else:
             exercise(ctx, r[1], "u", slot)
@@ -124,11 +104,11 @@ def h_modifier(ctx, mname, base, n):
     else:
         fn = [f for nm, f in MODIFIERS if nm == mname][0]
         r = call(fn, u, a)
-    ctx.observe(mname, r[1] if r[0] == "exc" else "ok")
+    ctx.observe(mname, outcome(r))
     ctx.check("only-ValueError-TypeError:" + mname, ok_type(r), r[1])
     if r[0] == "ok" and r[1] is not NotImplemented:
         st = call(str, r[1])
-        ctx.observe("str", st[1] if st[0] == "exc" else "ok")
+        ctx.observe("str", outcome(st))
         ctx.check("result-can-be-stringified:" + mname, st[0] == "ok", st[1])
         rc = U.raw_components(r[1])
         ctx.check("result-accessors-only-ValueError-TypeError:" + mname, ok_type(rc), rc[1])
@@ -139,7 +119,7 @@ def h_with_port(ctx, base):
     p = ctx.int("port", -70000, 70000)
     u = P.URL(base)
     r = call(u.with_port, p)
-    ctx.observe("with_port", r[1] if r[0] == "exc" else "ok")
+    ctx.observe("with_port", outcome(r))
     ctx.check("only-ValueError-TypeError:with_port", ok_type(r), r[1])
     if r[0] == "ok":
         st = call(str, r[1])
@@ -154,11 +134,11 @@ def h_build(ctx, host, n):
         args = dict(scheme="http", host=host, port=p)
         args[kw] = ("/" + t) if kw == "path" else t
         r = call(lambda: P.URL.build(**args))
-        ctx.observe("build:" + kw, r[1] if r[0] == "exc" else "ok")
+        ctx.observe("build:" + kw, outcome(r))
         ctx.check("only-ValueError-TypeError:build", ok_type(r), r[1])
         if r[0] == "ok":
             st = call(str, r[1])
-            ctx.observe("str:" + kw, st[1] if st[0] == "exc" else "ok")
+            ctx.observe("str:" + kw, outcome(st))
             ctx.check("built-url-can-be-stringified", st[0] == "ok", st[1])
             rc = U.raw_components(r[1])
             ctx.check("built-url-accessors-only-ValueError-TypeError", ok_type(rc), rc[1])
@@ -168,11 +148,11 @@ def h_build_authority(ctx, n):
     P = ctx.P
     a = ctx.str("a", n)
     r = call(lambda: P.URL.build(scheme="http", authority=a, path="/"))
-    ctx.observe("build", r[1] if r[0] == "exc" else "ok")
+    ctx.observe("build", outcome(r))
     ctx.check("only-ValueError-TypeError:build(authority)", ok_type(r), r[1])
     if r[0] == "ok":
         st = call(str, r[1])
-        ctx.observe("str", st[1] if st[0] == "exc" else "ok")
+        ctx.observe("str", outcome(st))
         ctx.check("built-url-can-be-stringified", st[0] == "ok", st[1])
         rc = U.raw_components(r[1])
         ctx.check("built-url-accessors-only-ValueError-TypeError", ok_type(rc), rc[1])
